@@ -205,4 +205,1085 @@ theorem findRegistrySource_eq (w : World) (st : BState) (src : RegSrc) (allowed 
           | (st2, some real) => (st2, some { pkg := real.pkg, sub := finalSourceSub src.sub real.sub }) :=
   rfl
 
+/-! ## generic invariants of the builder loop -/
+
+/-- two states that differ only in the work queues and the poison flag -/
+structure SameMemo (st st' : BState) : Prop where
+  log : st'.log = st.log
+  analyzed : st'.analyzed = st.analyzed
+  pkgDirs : st'.pkgDirs = st.pkgDirs
+  pkgMeta : st'.pkgMeta = st.pkgMeta
+  resolved : st'.resolved = st.resolved
+  deprec : st'.deprec = st.deprec
+  regVersions : st'.regVersions = st.regVersions
+
+theorem SameMemo.rfl' (st : BState) : SameMemo st st := ⟨rfl, rfl, rfl, rfl, rfl, rfl, rfl⟩
+
+theorem SameMemo.trans {a b c : BState} (h1 : SameMemo a b) (h2 : SameMemo b c) : SameMemo a c :=
+  ⟨h2.log.trans h1.log, h2.analyzed.trans h1.analyzed, h2.pkgDirs.trans h1.pkgDirs,
+   h2.pkgMeta.trans h1.pkgMeta, h2.resolved.trans h1.resolved, h2.deprec.trans h1.deprec,
+   h2.regVersions.trans h1.regVersions⟩
+
+/-- `applyDecls` touches the two queues only -/
+theorem applyDecls_sameMemo (base : RemoteSrc) (decls : List Decl) (st : BState) (ds : List Diag) :
+    SameMemo st (applyDecls base decls st ds).1 := by
+  induction decls generalizing st ds with
+  | nil => exact SameMemo.rfl' st
+  | cons d r ih =>
+    cases d with
+    | remote src f =>
+      simp only [applyDecls]
+      exact SameMemo.trans (b := { st with pendingRemote := st.pendingRemote ++ [(src, f)] })
+        ⟨rfl, rfl, rfl, rfl, rfl, rfl, rfl⟩ (ih _ _)
+    | registry src allowed f =>
+      simp only [applyDecls]
+      exact SameMemo.trans
+        (b := { st with pendingRegistry := st.pendingRegistry ++ [(src, allowed, f)] })
+        ⟨rfl, rfl, rfl, rfl, rfl, rfl, rfl⟩ (ih _ _)
+    | loc rel f =>
+      simp only [applyDecls]
+      split
+      · next sub _ =>
+        exact SameMemo.trans
+          (b := { st with pendingRemote := st.pendingRemote ++ [({ pkg := base.pkg, sub := sub }, f)] })
+          ⟨rfl, rfl, rfl, rfl, rfl, rfl, rfl⟩ (ih _ _)
+      · exact ih _ _
+    | diag e s f => exact ih _ _
+
+theorem applyDecls_poisoned (base : RemoteSrc) (decls : List Decl) (st : BState) (ds : List Diag) :
+    (applyDecls base decls st ds).1.poisoned = st.poisoned := by
+  induction decls generalizing st ds with
+  | nil => rfl
+  | cons d r ih =>
+    cases d with
+    | remote src f => exact ih _ _
+    | registry src allowed f => exact ih _ _
+    | loc rel f =>
+      simp only [applyDecls]
+      split
+      · exact ih _ _
+      · exact ih _ _
+    | diag e s f => exact ih _ _
+
+/-- what it takes for a state predicate to be an invariant of the whole builder: it ignores the
+queues and the poison flag and survives each elementary transition -/
+structure StepInv (w : World) (P : BState → Prop) : Prop where
+  memo : ∀ st st', SameMemo st st' → P st → P st'
+  versions : ∀ st pkg, P st → P (frsVersions w st pkg).1
+  source : ∀ st pkg vs sel, P st → P (frsSource w st pkg vs sel).1
+  ensure : ∀ st pkg, P st → P (ensurePackage w st pkg).1
+  analyse : ∀ st src f, P st → st.analyzed.contains (src, f) = false →
+    P { st with log := .analyse src f :: st.log, analyzed := (src, f) :: st.analyzed }
+  trace : ∀ st n, P st → P { st with log := .traceDiags n :: st.log }
+
+theorem findRegistrySource_inv {w : World} {P : BState → Prop} (hP : StepInv w P)
+    (st : BState) (src : RegSrc) (allowed : List VerS) (h : P st) :
+    P (findRegistrySource w st src allowed).1 := by
+  rw [findRegistrySource_eq]
+  have h1 := hP.versions st src.pkg h
+  split
+  · next st1 e => rw [e] at h1; exact h1
+  · next st1 vs e =>
+    rw [e] at h1
+    split
+    · exact h1
+    · next sel _ =>
+      have h2 := hP.source st1 src.pkg vs sel h1
+      split
+      · next st2 e2 => rw [e2] at h2; exact h2
+      · next st2 real e2 => rw [e2] at h2; exact h2
+
+theorem applyDecls_inv {w : World} {P : BState → Prop} (hP : StepInv w P)
+    (base : RemoteSrc) (decls : List Decl) (st : BState) (ds : List Diag) (h : P st) :
+    P (applyDecls base decls st ds).1 :=
+  hP.memo _ _ (applyDecls_sameMemo base decls st ds) h
+
+theorem drain_inv {w : World} {P : BState → Prop} (hP : StepInv w P) (fuel : Nat) (ph : Bool)
+    (st : BState) (ds : List Diag) (st' : BState) (ds' : List Diag)
+    (h : P st) (hd : drain w fuel ph st ds = .done st' ds') : P st' := by
+  induction fuel generalizing ph st ds with
+  | zero => simp [drain] at hd
+  | succ fuel ih =>
+    cases ph with
+    | false =>
+      simp only [drain] at hd
+      split at hd
+      · exact ih _ _ _ h hd
+      · next src allowed f _ =>
+        have h0 : P { st with pendingRegistry := st.pendingRegistry.dropLast } :=
+          hP.memo st _ ⟨rfl, rfl, rfl, rfl, rfl, rfl, rfl⟩ h
+        have h1 := findRegistrySource_inv hP _ src allowed h0
+        split at hd
+        · next st1 e => rw [e] at h1; exact ih _ _ _ h1 hd
+        · next st1 real e =>
+          rw [e] at h1
+          exact ih _ _ _ (hP.memo st1 { st1 with pendingRemote := st1.pendingRemote ++ [(real, f)] }
+            ⟨rfl, rfl, rfl, rfl, rfl, rfl, rfl⟩ h1) hd
+    | true =>
+      simp only [drain] at hd
+      split at hd
+      · split at hd
+        · cases hd; exact h
+        · exact ih _ _ _ h hd
+      · next src f _ =>
+        have h0 : P { st with pendingRemote := st.pendingRemote.dropLast } :=
+          hP.memo st _ ⟨rfl, rfl, rfl, rfl, rfl, rfl, rfl⟩ h
+        have h1 := hP.ensure _ src.pkg h0
+        split at hd
+        · next st1 e => rw [e] at h1; exact ih _ _ _ h1 hd
+        · next st1 content e =>
+          rw [e] at h1
+          split at hd
+          · exact ih _ _ _ h1 hd
+          · next hc =>
+            have hc' : st1.analyzed.contains (src, f) = false := by simpa using hc
+            have h2 := hP.analyse st1 src f h1 hc'
+            refine ih _ _ _ ?_ hd
+            have hm := applyDecls_sameMemo src ((assoc w.deps (content, src.sub, f)).getD [])
+              { st1 with log := .analyse src f :: st1.log } ds
+            generalize applyDecls src ((assoc w.deps (content, src.sub, f)).getD [])
+              { st1 with log := .analyse src f :: st1.log } ds = r at hd hm
+            have h3 : P { r.1 with analyzed := (src, f) :: r.1.analyzed } :=
+              hP.memo { st1 with log := .analyse src f :: st1.log, analyzed := (src, f) :: st1.analyzed } _
+                ⟨hm.log, by simp [hm.analyzed], hm.pkgDirs, hm.pkgMeta,
+                  hm.resolved, hm.deprec, hm.regVersions⟩ h2
+            split
+            · exact h3
+            · exact hP.trace _ _ h3
+
+theorem applyOp_inv {w : World} {P : BState → Prop} (hP : StepInv w P) (fuel : Nat)
+    (st : BState) (op : Op) (h : P st) : P (applyOp w fuel st op).1 := by
+  unfold applyOp
+  split
+  · exact h
+  · cases op with
+    | addRemote src f =>
+      simp only
+      split
+      · exact h
+      · next st1 hq =>
+        split at hq
+        · cases hq
+        · cases hq
+          have h1 : P { st with pendingRemote := st.pendingRemote ++ [(src, f)] } :=
+            hP.memo st _ ⟨rfl, rfl, rfl, rfl, rfl, rfl, rfl⟩ h
+          split
+          · exact h1
+          · next st2 ds hd =>
+            exact hP.memo st2 _ ⟨rfl, rfl, rfl, rfl, rfl, rfl, rfl⟩ (drain_inv hP _ _ _ _ _ _ h1 hd)
+    | addRegistry src allowed f =>
+      simp only
+      have h1 : P { st with pendingRegistry := st.pendingRegistry ++ [(src, allowed, f)] } :=
+        hP.memo st _ ⟨rfl, rfl, rfl, rfl, rfl, rfl, rfl⟩ h
+      split
+      · exact h1
+      · next st2 ds hd =>
+        exact hP.memo st2 _ ⟨rfl, rfl, rfl, rfl, rfl, rfl, rfl⟩ (drain_inv hP _ _ _ _ _ _ h1 hd)
+
+theorem runOps_inv {w : World} {P : BState → Prop} (hP : StepInv w P) (fuel : Nat)
+    (st : BState) (ops : List Op) (h : P st) : P (runOps w fuel st ops).1 := by
+  induction ops generalizing st with
+  | nil => exact h
+  | cons op r ih =>
+    simp only [runOps]
+    exact ih _ (applyOp_inv hP fuel st op h)
+
+/-! ## the bracket automaton over the call log -/
+
+/-- what a bracketed piece of work is about: a package fetch, a registry version listing, the
+source lookup of one registry package version -/
+inductive LogKey
+  | pkg (p : PkgAddr)
+  | reg (r : RegPkg)
+  | ver (r : RegPkg) (v : VerS)
+  deriving DecidableEq, Repr
+
+/-- the role an event plays -/
+inductive EvRole
+  | start (k : LogKey) | call (k : LogKey) | ok (k : LogKey) | fail (k : LogKey) | already (k : LogKey)
+  | analyse (s : RemoteSrc) (f : FinderId)
+  | note
+  deriving DecidableEq, Repr
+
+def Ev.cls : Ev → EvRole
+  | .fetchStart p => .start (.pkg p)
+  | .fetchCall p => .call (.pkg p)
+  | .fetchOk p => .ok (.pkg p)
+  | .fetchFail p => .fail (.pkg p)
+  | .fetchAlready p => .already (.pkg p)
+  | .versStart r => .start (.reg r)
+  | .versCall r => .call (.reg r)
+  | .versOk r => .ok (.reg r)
+  | .versFail r => .fail (.reg r)
+  | .versAlready r => .already (.reg r)
+  | .srcStart r v => .start (.ver r v)
+  | .srcCall r v => .call (.ver r v)
+  | .srcOk r v => .ok (.ver r v)
+  | .srcFail r v => .fail (.ver r v)
+  | .srcAlready r v => .already (.ver r v)
+  | .analyse s f => .analyse s f
+  | .traceDiags _ => .note
+
+inductive LogPhase
+  | idle
+  | started (k : LogKey)
+  | called (k : LogKey)
+  deriving DecidableEq, Repr
+
+/-- automaton state: the open bracket (if any), the keys completed successfully so far, the
+artefacts analysed so far -/
+structure LogAuto where
+  phase : LogPhase
+  done : List LogKey
+  analysed : List (RemoteSrc × FinderId)
+  deriving DecidableEq, Repr
+
+def LogAuto.init : LogAuto := { phase := .idle, done := [], analysed := [] }
+
+/-- one event, read oldest-first.  `none` = the log is not well bracketed.
+* `start k` only outside a bracket and only for a key not yet completed;
+* `call k` only directly after `start k`; `ok k` / `fail k` only directly after `call k`;
+* `already k` only outside a bracket and only for a completed key;
+* `analyse s f` only outside a bracket and at most once per artefact. -/
+def logStep (a : LogAuto) : EvRole → Option LogAuto
+  | .start k => if a.phase = .idle ∧ k ∉ a.done then some { a with phase := .started k } else none
+  | .call k => if a.phase = .started k then some { a with phase := .called k } else none
+  | .ok k =>
+    if a.phase = .called k ∧ k ∉ a.done then some { a with phase := .idle, done := k :: a.done }
+    else none
+  | .fail k => if a.phase = .called k then some { a with phase := .idle } else none
+  | .already k => if a.phase = .idle ∧ k ∈ a.done then some a else none
+  | .analyse s f =>
+    if a.phase = .idle ∧ (s, f) ∉ a.analysed then some { a with analysed := (s, f) :: a.analysed }
+    else none
+  | .note => if a.phase = .idle then some a else none
+
+/-- run the automaton over a log given oldest-first -/
+def logRun (a : LogAuto) : List Ev → Option LogAuto
+  | [] => some a
+  | e :: r =>
+    match logStep a e.cls with
+    | none => none
+    | some a' => logRun a' r
+
+/-- **the bracket predicate**: the log (oldest first) is accepted and ends outside any bracket -/
+def logWf (l : List Ev) : Bool :=
+  match logRun LogAuto.init l with
+  | some a => decide (a.phase = .idle)
+  | none => false
+
+theorem logRun_append (a : LogAuto) (l1 l2 : List Ev) :
+    logRun a (l1 ++ l2) = (logRun a l1).bind (fun a' => logRun a' l2) := by
+  induction l1 generalizing a with
+  | nil => rfl
+  | cons e r ih =>
+    simp only [List.cons_append, logRun]
+    cases logStep a e.cls with
+    | none => rfl
+    | some a' => exact ih a'
+
+/-- the automaton state after a log given newest-first (as `BState.log` is) -/
+def logScan (l : List Ev) : Option LogAuto := logRun LogAuto.init l.reverse
+
+theorem logScan_nil : logScan [] = some LogAuto.init := rfl
+
+theorem logScan_cons (e : Ev) (l : List Ev) :
+    logScan (e :: l) = (logScan l).bind (fun a => logStep a e.cls) := by
+  unfold logScan
+  rw [List.reverse_cons, logRun_append]
+  cases logRun LogAuto.init l.reverse with
+  | none => rfl
+  | some a =>
+    simp only [Option.bind_some, logRun]
+    cases logStep a e.cls <;> rfl
+
+theorem logScan_cons_some (e : Ev) (l : List Ev) (a : LogAuto) (h : logScan (e :: l) = some a) :
+    ∃ a0, logScan l = some a0 ∧ logStep a0 e.cls = some a := by
+  rw [logScan_cons] at h
+  cases h0 : logScan l with
+  | none => rw [h0] at h; cases h
+  | some a0 => rw [h0] at h; exact ⟨a0, rfl, h⟩
+
+theorem logWf_reverse_iff (l : List Ev) :
+    logWf l.reverse = true ↔ ∃ a, logScan l = some a ∧ a.phase = .idle := by
+  unfold logWf logScan
+  cases logRun LogAuto.init l.reverse with
+  | none => simp
+  | some a => simp
+
+/-- a complete successful bracket -/
+theorem logScan_bracket_ok (l : List Ev) (a : LogAuto) (e1 e2 e3 : Ev) (k : LogKey)
+    (h1 : e1.cls = .start k) (h2 : e2.cls = .call k) (h3 : e3.cls = .ok k)
+    (h : logScan l = some a) (hi : a.phase = .idle) (hk : k ∉ a.done) :
+    logScan (e3 :: e2 :: e1 :: l) = some { a with done := k :: a.done } := by
+  obtain ⟨ph, dn, an⟩ := a
+  simp only at hi hk
+  subst hi
+  simp [logScan_cons, h, h1, h2, h3, logStep, hk]
+
+/-- a complete failed bracket -/
+theorem logScan_bracket_fail (l : List Ev) (a : LogAuto) (e1 e2 e3 : Ev) (k : LogKey)
+    (h1 : e1.cls = .start k) (h2 : e2.cls = .call k) (h3 : e3.cls = .fail k)
+    (h : logScan l = some a) (hi : a.phase = .idle) (hk : k ∉ a.done) :
+    logScan (e3 :: e2 :: e1 :: l) = some a := by
+  obtain ⟨ph, dn, an⟩ := a
+  simp only at hi hk
+  subst hi
+  simp [logScan_cons, h, h1, h2, h3, logStep, hk]
+
+theorem logScan_already (l : List Ev) (a : LogAuto) (e : Ev) (k : LogKey) (h1 : e.cls = .already k)
+    (h : logScan l = some a) (hi : a.phase = .idle) (hk : k ∈ a.done) :
+    logScan (e :: l) = some a := by
+  simp [logScan_cons, h, h1, logStep, hi, hk]
+
+theorem logScan_analyse (l : List Ev) (a : LogAuto) (s : RemoteSrc) (f : FinderId)
+    (h : logScan l = some a) (hi : a.phase = .idle) (hk : (s, f) ∉ a.analysed) :
+    logScan (.analyse s f :: l) = some { a with analysed := (s, f) :: a.analysed } := by
+  simp [logScan_cons, h, Ev.cls, logStep, hi, hk]
+
+theorem logScan_note (l : List Ev) (a : LogAuto) (n : Nat)
+    (h : logScan l = some a) (hi : a.phase = .idle) :
+    logScan (.traceDiags n :: l) = some a := by
+  simp [logScan_cons, h, Ev.cls, logStep, hi]
+
+/-! ## `LogOK`: the log and the memo tables agree -/
+
+/-- the memo table entry a key stands for -/
+def inTables (st : BState) : LogKey → Prop
+  | .pkg p => p ∈ st.pkgDirs.map Prod.fst
+  | .reg r => r ∈ st.regVersions.map Prod.fst
+  | .ver r v => (r, v) ∈ st.resolved.map Prod.fst
+
+/-- **the log invariant**: the log is well bracketed and closed; the keys with a successful
+bracket are exactly the keys of the memo tables (`pkgDirs`, `regVersions`, `resolved`); the
+artefacts with an `analyse` event are exactly `analyzed`, in the same order. -/
+def LogOK (st : BState) : Prop :=
+  ∃ a, logScan st.log = some a ∧ a.phase = .idle ∧ (∀ k, k ∈ a.done ↔ inTables st k) ∧
+    a.analysed = st.analyzed
+
+theorem logOK_init : LogOK BState.init :=
+  ⟨LogAuto.init, rfl, rfl, by intro k; cases k <;> simp [LogAuto.init, inTables, BState.init], rfl⟩
+
+theorem logOK_sameMemo (st st' : BState) (hm : SameMemo st st') (h : LogOK st) : LogOK st' := by
+  obtain ⟨a, h1, h2, h3, h4⟩ := h
+  refine ⟨a, by rw [hm.log]; exact h1, h2, ?_, by rw [hm.analyzed]; exact h4⟩
+  intro k
+  rw [h3 k]
+  cases k <;> simp only [inTables, hm.pkgDirs, hm.regVersions, hm.resolved]
+
+theorem logOK_stepInv (w : World) : StepInv w LogOK where
+  memo := logOK_sameMemo
+  versions := by
+    intro st pkg ⟨a, h1, h2, h3, h4⟩
+    unfold frsVersions
+    split
+    · next vs hv =>
+      exact ⟨a, logScan_already _ a _ (.reg pkg) rfl h1 h2
+        ((h3 _).mpr (assoc_some_mem_keys _ _ _ hv)), h2, h3, h4⟩
+    · next hv =>
+      have hk : LogKey.reg pkg ∉ a.done := fun hk => (assoc_eq_none_iff _ _).mp hv ((h3 _).mp hk)
+      split
+      · refine ⟨_, logScan_bracket_ok _ a _ _ _ (.reg pkg) rfl rfl rfl h1 h2 hk, h2, ?_, h4⟩
+        intro k
+        cases k <;> simp [inTables, h3]
+      · exact ⟨a, logScan_bracket_fail _ a _ _ _ (.reg pkg) rfl rfl rfl h1 h2 hk, h2, h3, h4⟩
+  source := by
+    intro st pkg vs sel ⟨a, h1, h2, h3, h4⟩
+    unfold frsSource
+    split
+    · next real hv =>
+      exact ⟨a, logScan_already _ a _ (.ver pkg sel.ver) rfl h1 h2
+        ((h3 _).mpr (assoc_some_mem_keys _ _ _ hv)), h2, h3, h4⟩
+    · next hv =>
+      have hk : LogKey.ver pkg sel.ver ∉ a.done :=
+        fun hk => (assoc_eq_none_iff _ _).mp hv ((h3 _).mp hk)
+      split
+      · refine ⟨_, logScan_bracket_ok _ a _ _ _ (.ver pkg sel.ver) rfl rfl rfl h1 h2 hk, h2, ?_, h4⟩
+        intro k
+        cases k <;> simp [inTables, h3]
+      · exact ⟨a, logScan_bracket_fail _ a _ _ _ (.ver pkg sel.ver) rfl rfl rfl h1 h2 hk, h2, h3, h4⟩
+  ensure := by
+    intro st pkg ⟨a, h1, h2, h3, h4⟩
+    unfold ensurePackage
+    split
+    · next d hv =>
+      exact ⟨a, logScan_already _ a _ (.pkg pkg) rfl h1 h2
+        ((h3 _).mpr (assoc_some_mem_keys _ _ _ hv)), h2, h3, h4⟩
+    · next hv =>
+      have hk : LogKey.pkg pkg ∉ a.done := fun hk => (assoc_eq_none_iff _ _).mp hv ((h3 _).mp hk)
+      split
+      · refine ⟨_, logScan_bracket_ok _ a _ _ _ (.pkg pkg) rfl rfl rfl h1 h2 hk, h2, ?_, h4⟩
+        intro k
+        cases k <;> simp [inTables, h3]
+      · exact ⟨a, logScan_bracket_fail _ a _ _ _ (.pkg pkg) rfl rfl rfl h1 h2 hk, h2, h3, h4⟩
+  analyse := by
+    intro st src f ⟨a, h1, h2, h3, h4⟩ hc
+    have hk : (src, f) ∉ a.analysed := by
+      rw [h4]; intro hm
+      have : st.analyzed.contains (src, f) = true := by simpa using hm
+      rw [hc] at this; cases this
+    exact ⟨_, logScan_analyse _ a src f h1 h2 hk, h2, h3, by simp [h4]⟩
+  trace := by
+    intro st n ⟨a, h1, h2, h3, h4⟩
+    exact ⟨a, logScan_note _ a n h1 h2, h2, h3, h4⟩
+
+/-! ## counting events: what acceptance by the automaton implies -/
+
+theorem logStep_start_some (a a' : LogAuto) (k : LogKey) :
+    logStep a (.start k) = some a' ↔
+      a.phase = .idle ∧ k ∉ a.done ∧ a' = { a with phase := .started k } := by
+  show (if a.phase = .idle ∧ k ∉ a.done then some { a with phase := .started k } else none) = some a' ↔ _
+  split
+  · next h => simp [h.1, h.2, eq_comm]
+  · next h => simp; intro h1 h2; exact absurd ⟨h1, h2⟩ h
+
+theorem logStep_call_some (a a' : LogAuto) (k : LogKey) :
+    logStep a (.call k) = some a' ↔ a.phase = .started k ∧ a' = { a with phase := .called k } := by
+  show (if a.phase = .started k then some { a with phase := .called k } else none) = some a' ↔ _
+  split
+  · next h => simp [h, eq_comm]
+  · next h => simp [h]
+
+theorem logStep_ok_some (a a' : LogAuto) (k : LogKey) :
+    logStep a (.ok k) = some a' ↔
+      a.phase = .called k ∧ k ∉ a.done ∧ a' = { a with phase := .idle, done := k :: a.done } := by
+  show (if a.phase = .called k ∧ k ∉ a.done then some { a with phase := .idle, done := k :: a.done }
+    else none) = some a' ↔ _
+  split
+  · next h => simp [h.1, h.2, eq_comm]
+  · next h => simp; intro h1 h2; exact absurd ⟨h1, h2⟩ h
+
+theorem logStep_fail_some (a a' : LogAuto) (k : LogKey) :
+    logStep a (.fail k) = some a' ↔ a.phase = .called k ∧ a' = { a with phase := .idle } := by
+  show (if a.phase = .called k then some { a with phase := .idle } else none) = some a' ↔ _
+  split
+  · next h => simp [h, eq_comm]
+  · next h => simp [h]
+
+theorem logStep_already_some (a a' : LogAuto) (k : LogKey) :
+    logStep a (.already k) = some a' ↔ a.phase = .idle ∧ k ∈ a.done ∧ a' = a := by
+  show (if a.phase = .idle ∧ k ∈ a.done then some a else none) = some a' ↔ _
+  split
+  · next h => simp [h.1, h.2, eq_comm]
+  · next h => simp; intro h1 h2; exact absurd ⟨h1, h2⟩ h
+
+theorem logStep_analyse_some (a a' : LogAuto) (s : RemoteSrc) (f : FinderId) :
+    logStep a (.analyse s f) = some a' ↔
+      a.phase = .idle ∧ (s, f) ∉ a.analysed ∧ a' = { a with analysed := (s, f) :: a.analysed } := by
+  show (if a.phase = .idle ∧ (s, f) ∉ a.analysed then some { a with analysed := (s, f) :: a.analysed }
+    else none) = some a' ↔ _
+  split
+  · next h => simp [h.1, h.2, eq_comm]
+  · next h => simp; intro h1 h2; exact absurd ⟨h1, h2⟩ h
+
+theorem logStep_note_some (a a' : LogAuto) :
+    logStep a .note = some a' ↔ a.phase = .idle ∧ a' = a := by
+  show (if a.phase = .idle then some a else none) = some a' ↔ _
+  split
+  · next h => simp [h, eq_comm]
+  · next h => simp [h]
+
+/-- number of events of a given role -/
+def cnt (c : EvRole) (l : List Ev) : Nat := l.countP (fun e => e.cls = c)
+
+theorem cnt_nil (c : EvRole) : cnt c [] = 0 := rfl
+
+theorem cnt_cons (c : EvRole) (e : Ev) (l : List Ev) :
+    cnt c (e :: l) = cnt c l + if e.cls = c then 1 else 0 := by
+  unfold cnt
+  rw [List.countP_cons]
+  simp
+
+structure Counts (l : List Ev) (a : LogAuto) : Prop where
+  ok : ∀ k, cnt (.ok k) l = if k ∈ a.done then 1 else 0
+  call : ∀ k, cnt (.call k) l = cnt (.ok k) l + cnt (.fail k) l + if a.phase = .called k then 1 else 0
+  start : ∀ k, cnt (.start k) l = cnt (.call k) l + if a.phase = .started k then 1 else 0
+  analyse : ∀ s f, cnt (.analyse s f) l = if (s, f) ∈ a.analysed then 1 else 0
+  already : ∀ k, 0 < cnt (.already k) l → k ∈ a.done
+
+theorem logScan_counts (l : List Ev) (a : LogAuto) (h : logScan l = some a) : Counts l a := by
+  induction l generalizing a with
+  | nil =>
+    cases h
+    constructor <;> intros <;> simp_all [cnt_nil, LogAuto.init]
+  | cons e l ih =>
+    obtain ⟨a0, h0, hs⟩ := logScan_cons_some e l a h
+    have c := ih a0 h0
+    obtain ⟨ph0, dn0, an0⟩ := a0
+    generalize hr : e.cls = r at hs
+    cases r with
+    | start k =>
+      rw [logStep_start_some] at hs
+      obtain ⟨h1, h2, rfl⟩ := hs
+      simp only at h1 h2
+      subst h1
+      constructor
+      · intro k'; simp [cnt_cons, hr, c.ok]
+      · intro k'; have := c.call k'; simp [cnt_cons, hr] at this ⊢; omega
+      · intro k'; have := c.start k'; simp [cnt_cons, hr] at this ⊢
+        simp [this]
+      · intro s f; simp [cnt_cons, hr, c.analyse]
+      · intro k'; have := c.already k'; simpa [cnt_cons, hr] using this
+    | call k =>
+      rw [logStep_call_some] at hs
+      obtain ⟨h1, rfl⟩ := hs
+      simp only at h1
+      subst h1
+      constructor
+      · intro k'; simp [cnt_cons, hr, c.ok]
+      · intro k'; have := c.call k'; simp [cnt_cons, hr] at this ⊢
+        simp [this]
+      · intro k'; have := c.start k'; simp [cnt_cons, hr] at this ⊢
+        by_cases hk : k = k' <;> simp [hk, this] <;> omega
+      · intro s f; simp [cnt_cons, hr, c.analyse]
+      · intro k'; have := c.already k'; simpa [cnt_cons, hr] using this
+    | ok k =>
+      rw [logStep_ok_some] at hs
+      obtain ⟨h1, h2, rfl⟩ := hs
+      simp only at h1 h2
+      subst h1
+      constructor
+      · intro k'; have := c.ok k'; simp [cnt_cons, hr] at this ⊢
+        by_cases hk : k = k'
+        · subst hk; simp [this, h2]
+        · have hk' : ¬ k' = k := fun e => hk e.symm
+          simp [hk, hk', this]
+      · intro k'; have := c.call k'; simp [cnt_cons, hr] at this ⊢
+        by_cases hk : k = k' <;> simp [hk, this] <;> omega
+      · intro k'; have := c.start k'; simpa [cnt_cons, hr] using this
+      · intro s f; simp [cnt_cons, hr, c.analyse]
+      · intro k' hp; have := c.already k'; simp [cnt_cons, hr] at this hp ⊢
+        exact Or.inr (this hp)
+    | fail k =>
+      rw [logStep_fail_some] at hs
+      obtain ⟨h1, rfl⟩ := hs
+      simp only at h1
+      subst h1
+      constructor
+      · intro k'; simp [cnt_cons, hr, c.ok]
+      · intro k'; have := c.call k'; simp [cnt_cons, hr] at this ⊢
+        by_cases hk : k = k' <;> simp [hk, this] <;> omega
+      · intro k'; have := c.start k'; simpa [cnt_cons, hr] using this
+      · intro s f; simp [cnt_cons, hr, c.analyse]
+      · intro k'; have := c.already k'; simpa [cnt_cons, hr] using this
+    | already k =>
+      rw [logStep_already_some] at hs
+      obtain ⟨h1, h2, rfl⟩ := hs
+      simp only at h1 h2
+      subst h1
+      constructor
+      · intro k'; simp [cnt_cons, hr, c.ok]
+      · intro k'; have := c.call k'; simpa [cnt_cons, hr] using this
+      · intro k'; have := c.start k'; simpa [cnt_cons, hr] using this
+      · intro s f; simp [cnt_cons, hr, c.analyse]
+      · intro k' hp; have := c.already k'; simp [cnt_cons, hr] at this hp ⊢
+        by_cases hk : k = k'
+        · subst hk; exact h2
+        · simp [hk] at hp; exact this hp
+    | analyse s f =>
+      rw [logStep_analyse_some] at hs
+      obtain ⟨h1, h2, rfl⟩ := hs
+      simp only at h1 h2
+      subst h1
+      constructor
+      · intro k'; simp [cnt_cons, hr, c.ok]
+      · intro k'; have := c.call k'; simpa [cnt_cons, hr] using this
+      · intro k'; have := c.start k'; simpa [cnt_cons, hr] using this
+      · intro s' f'; have := c.analyse s' f'; simp [cnt_cons, hr] at this ⊢
+        by_cases hk : s = s' ∧ f = f'
+        · obtain ⟨rfl, rfl⟩ := hk; simp [this, h2]
+        · have hk' : ¬ (s' = s ∧ f' = f) := fun e => hk ⟨e.1.symm, e.2.symm⟩
+          simp [hk, hk', this]
+      · intro k'; have := c.already k'; simpa [cnt_cons, hr] using this
+    | note =>
+      rw [logStep_note_some] at hs
+      obtain ⟨h1, rfl⟩ := hs
+      simp only at h1
+      subst h1
+      constructor
+      · intro k'; simp [cnt_cons, hr, c.ok]
+      · intro k'; have := c.call k'; simpa [cnt_cons, hr] using this
+      · intro k'; have := c.start k'; simpa [cnt_cons, hr] using this
+      · intro s f; simp [cnt_cons, hr, c.analyse]
+      · intro k'; have := c.already k'; simpa [cnt_cons, hr] using this
+
+/-! ## positional reading of the bracket predicate -/
+
+theorem cnt_pos_iff (c : EvRole) (l : List Ev) : 0 < cnt c l ↔ ∃ e ∈ l, e.cls = c := by
+  unfold cnt
+  rw [List.countP_pos_iff]
+  simp
+
+theorem cnt_reverse (c : EvRole) (l : List Ev) : cnt c l.reverse = cnt c l := by
+  unfold cnt; exact List.countP_reverse
+
+/-- what the next event can be, given the open bracket -/
+theorem logStep_from_started (a a' : LogAuto) (r : EvRole) (k : LogKey)
+    (h : logStep a r = some a') (hp : a.phase = .started k) :
+    r = .call k ∧ a'.phase = .called k := by
+  cases r with
+  | start k' => rw [logStep_start_some] at h; rw [hp] at h; cases h.1
+  | call k' =>
+    rw [logStep_call_some] at h
+    obtain ⟨h1, rfl⟩ := h
+    rw [hp] at h1; cases h1; exact ⟨rfl, rfl⟩
+  | ok k' => rw [logStep_ok_some] at h; rw [hp] at h; cases h.1
+  | fail k' => rw [logStep_fail_some] at h; rw [hp] at h; cases h.1
+  | already k' => rw [logStep_already_some] at h; rw [hp] at h; cases h.1
+  | analyse s f => rw [logStep_analyse_some] at h; rw [hp] at h; cases h.1
+  | note => rw [logStep_note_some] at h; rw [hp] at h; cases h.1
+
+theorem logStep_from_called (a a' : LogAuto) (r : EvRole) (k : LogKey)
+    (h : logStep a r = some a') (hp : a.phase = .called k) :
+    (r = .ok k ∨ r = .fail k) ∧ a'.phase = .idle := by
+  cases r with
+  | start k' => rw [logStep_start_some] at h; rw [hp] at h; cases h.1
+  | call k' => rw [logStep_call_some] at h; rw [hp] at h; cases h.1
+  | ok k' =>
+    rw [logStep_ok_some] at h
+    obtain ⟨h1, _, rfl⟩ := h
+    rw [hp] at h1; cases h1; exact ⟨Or.inl rfl, rfl⟩
+  | fail k' =>
+    rw [logStep_fail_some] at h
+    obtain ⟨h1, rfl⟩ := h
+    rw [hp] at h1; cases h1; exact ⟨Or.inr rfl, rfl⟩
+  | already k' => rw [logStep_already_some] at h; rw [hp] at h; cases h.1
+  | analyse s f => rw [logStep_analyse_some] at h; rw [hp] at h; cases h.1
+  | note => rw [logStep_note_some] at h; rw [hp] at h; cases h.1
+
+/-- which event leads into which phase -/
+theorem logStep_to_started (a a' : LogAuto) (r : EvRole) (k : LogKey)
+    (h : logStep a r = some a') (hp : a'.phase = .started k) : r = .start k := by
+  cases r with
+  | start k' => rw [logStep_start_some] at h; obtain ⟨_, _, rfl⟩ := h; cases hp; rfl
+  | call k' => rw [logStep_call_some] at h; obtain ⟨_, rfl⟩ := h; cases hp
+  | ok k' => rw [logStep_ok_some] at h; obtain ⟨_, _, rfl⟩ := h; cases hp
+  | fail k' => rw [logStep_fail_some] at h; obtain ⟨_, rfl⟩ := h; cases hp
+  | already k' => rw [logStep_already_some] at h; obtain ⟨h1, _, rfl⟩ := h; rw [h1] at hp; cases hp
+  | analyse s f => rw [logStep_analyse_some] at h; obtain ⟨h1, _, rfl⟩ := h; simp only at hp; rw [h1] at hp; cases hp
+  | note => rw [logStep_note_some] at h; obtain ⟨h1, rfl⟩ := h; rw [h1] at hp; cases hp
+
+theorem logStep_to_called (a a' : LogAuto) (r : EvRole) (k : LogKey)
+    (h : logStep a r = some a') (hp : a'.phase = .called k) : r = .call k := by
+  cases r with
+  | start k' => rw [logStep_start_some] at h; obtain ⟨_, _, rfl⟩ := h; cases hp
+  | call k' => rw [logStep_call_some] at h; obtain ⟨_, rfl⟩ := h; cases hp; rfl
+  | ok k' => rw [logStep_ok_some] at h; obtain ⟨_, _, rfl⟩ := h; cases hp
+  | fail k' => rw [logStep_fail_some] at h; obtain ⟨_, rfl⟩ := h; cases hp
+  | already k' => rw [logStep_already_some] at h; obtain ⟨h1, _, rfl⟩ := h; rw [h1] at hp; cases hp
+  | analyse s f => rw [logStep_analyse_some] at h; obtain ⟨h1, _, rfl⟩ := h; simp only at hp; rw [h1] at hp; cases hp
+  | note => rw [logStep_note_some] at h; obtain ⟨h1, rfl⟩ := h; rw [h1] at hp; cases hp
+
+/-- the phase required by each event -/
+theorem logStep_needs (a a' : LogAuto) (r : EvRole) (h : logStep a r = some a') :
+    match r with
+    | .start k => a.phase = .idle ∧ k ∉ a.done
+    | .call k => a.phase = .started k
+    | .ok k => a.phase = .called k
+    | .fail k => a.phase = .called k
+    | .already k => a.phase = .idle ∧ k ∈ a.done
+    | .analyse s f => a.phase = .idle ∧ (s, f) ∉ a.analysed
+    | .note => a.phase = .idle := by
+  cases r with
+  | start k => rw [logStep_start_some] at h; exact ⟨h.1, h.2.1⟩
+  | call k => rw [logStep_call_some] at h; exact h.1
+  | ok k => rw [logStep_ok_some] at h; exact h.1
+  | fail k => rw [logStep_fail_some] at h; exact h.1
+  | already k => rw [logStep_already_some] at h; exact ⟨h.1, h.2.1⟩
+  | analyse s f => rw [logStep_analyse_some] at h; exact ⟨h.1, h.2.1⟩
+  | note => rw [logStep_note_some] at h; exact h.1
+
+theorem logRun_cons_some (a af : LogAuto) (e : Ev) (r : List Ev) (h : logRun a (e :: r) = some af) :
+    ∃ a', logStep a e.cls = some a' ∧ logRun a' r = some af := by
+  simp only [logRun] at h
+  cases hs : logStep a e.cls with
+  | none => rw [hs] at h; cases h
+  | some a' => rw [hs] at h; exact ⟨a', rfl, h⟩
+
+theorem logWf_split (pre rest : List Ev) (h : logWf (pre ++ rest) = true) :
+    ∃ a af, logRun LogAuto.init pre = some a ∧ logRun a rest = some af ∧ af.phase = .idle := by
+  unfold logWf at h
+  rw [logRun_append] at h
+  cases h1 : logRun LogAuto.init pre with
+  | none => rw [h1] at h; cases h
+  | some a =>
+    rw [h1] at h
+    simp only [Option.bind_some] at h
+    cases h2 : logRun a rest with
+    | none => rw [h2] at h; cases h
+    | some af =>
+      rw [h2] at h
+      exact ⟨a, af, rfl, h2, by simpa using h⟩
+
+theorem logRun_eq_logScan (l : List Ev) : logRun LogAuto.init l = logScan l.reverse := by
+  unfold logScan; rw [List.reverse_reverse]
+
+/-- the completed keys are those with an `ok` event -/
+theorem logRun_done_iff (pre : List Ev) (a : LogAuto) (h : logRun LogAuto.init pre = some a)
+    (k : LogKey) : k ∈ a.done ↔ ∃ e ∈ pre, e.cls = .ok k := by
+  rw [logRun_eq_logScan] at h
+  have c := (logScan_counts _ a h).ok k
+  rw [cnt_reverse] at c
+  rw [← cnt_pos_iff, c]
+  by_cases hk : k ∈ a.done <;> simp [hk]
+
+/-- **bracket, forwards.** In a well-bracketed log (oldest first) every `start k` is immediately
+followed by `call k` and then by `ok k` or `fail k`. -/
+theorem logWf_start_followed (pre rest : List Ev) (e : Ev) (k : LogKey)
+    (h : logWf (pre ++ e :: rest) = true) (he : e.cls = .start k) :
+    ∃ e2 e3 rest', rest = e2 :: e3 :: rest' ∧ e2.cls = .call k ∧
+      (e3.cls = .ok k ∨ e3.cls = .fail k) := by
+  obtain ⟨a, af, _, h2, h3⟩ := logWf_split pre (e :: rest) h
+  obtain ⟨a1, hs1, hr1⟩ := logRun_cons_some a af e rest h2
+  rw [he, logStep_start_some] at hs1
+  have hp1 : a1.phase = .started k := by rw [hs1.2.2]
+  cases rest with
+  | nil => cases hr1; rw [hp1] at h3; cases h3
+  | cons e2 rest2 =>
+    obtain ⟨a2, hs2, hr2⟩ := logRun_cons_some a1 af e2 rest2 hr1
+    obtain ⟨hc2, hp2⟩ := logStep_from_started a1 a2 _ k hs2 hp1
+    cases rest2 with
+    | nil => cases hr2; rw [hp2] at h3; cases h3
+    | cons e3 rest3 =>
+      obtain ⟨a3, hs3, _⟩ := logRun_cons_some a2 af e3 rest3 hr2
+      exact ⟨e2, e3, rest3, rfl, hc2, (logStep_from_called a2 a3 _ k hs3 hp2).1⟩
+
+/-- the phase after a non-empty prefix tells its last event -/
+theorem logRun_last (pre : List Ev) (a : LogAuto) (h : logRun LogAuto.init pre = some a) :
+    (∀ k, a.phase = .started k → ∃ pre' e0, pre = pre' ++ [e0] ∧ e0.cls = .start k) ∧
+    (∀ k, a.phase = .called k → ∃ pre' e0, pre = pre' ++ [e0] ∧ e0.cls = .call k) := by
+  rw [logRun_eq_logScan] at h
+  cases hr : pre.reverse with
+  | nil =>
+    rw [hr] at h; cases h
+    exact ⟨fun k hk => by simp [LogAuto.init] at hk, fun k hk => by simp [LogAuto.init] at hk⟩
+  | cons e0 l =>
+    rw [hr] at h
+    obtain ⟨a0, _, hs⟩ := logScan_cons_some e0 l a h
+    have hpre : pre = l.reverse ++ [e0] := by
+      have := congrArg List.reverse hr
+      simpa using this
+    exact ⟨fun k hk => ⟨l.reverse, e0, hpre, logStep_to_started a0 a _ k hs hk⟩,
+      fun k hk => ⟨l.reverse, e0, hpre, logStep_to_called a0 a _ k hs hk⟩⟩
+
+/-- **bracket, backwards.** Every `call k` is immediately preceded by `start k`; every `ok k` and
+`fail k` by `call k` (so by `start k`, `call k`). -/
+theorem logWf_call_preceded (pre rest : List Ev) (e : Ev) (k : LogKey)
+    (h : logWf (pre ++ e :: rest) = true) (he : e.cls = .call k) :
+    ∃ pre' e0, pre = pre' ++ [e0] ∧ e0.cls = .start k := by
+  obtain ⟨a, af, h1, h2, _⟩ := logWf_split pre (e :: rest) h
+  obtain ⟨a1, hs1, _⟩ := logRun_cons_some a af e rest h2
+  rw [he, logStep_call_some] at hs1
+  exact (logRun_last pre a h1).1 k hs1.1
+
+theorem logWf_end_preceded (pre rest : List Ev) (e : Ev) (k : LogKey)
+    (h : logWf (pre ++ e :: rest) = true) (he : e.cls = .ok k ∨ e.cls = .fail k) :
+    ∃ pre' e0 e1, pre = pre' ++ [e0, e1] ∧ e0.cls = .start k ∧ e1.cls = .call k := by
+  obtain ⟨a, af, h1, h2, _⟩ := logWf_split pre (e :: rest) h
+  obtain ⟨a1, hs1, _⟩ := logRun_cons_some a af e rest h2
+  have hp : a.phase = .called k := by
+    rcases he with he | he
+    · rw [he, logStep_ok_some] at hs1; exact hs1.1
+    · rw [he, logStep_fail_some] at hs1; exact hs1.1
+  obtain ⟨pre1, e1, hpre, hc⟩ := (logRun_last pre a h1).2 k hp
+  have h' : logWf (pre1 ++ e1 :: (e :: rest)) = true := by
+    rw [hpre] at h; simpa using h
+  obtain ⟨pre0, e0, hpre0, hc0⟩ := logWf_call_preceded pre1 (e :: rest) e1 k h' hc
+  exact ⟨pre0, e0, e1, by rw [hpre, hpre0]; simp, hc0, hc⟩
+
+/-- **`already` only after success.** -/
+theorem logWf_already_after_ok (pre rest : List Ev) (e : Ev) (k : LogKey)
+    (h : logWf (pre ++ e :: rest) = true) (he : e.cls = .already k) :
+    ∃ e' ∈ pre, e'.cls = .ok k := by
+  obtain ⟨a, af, h1, h2, _⟩ := logWf_split pre (e :: rest) h
+  obtain ⟨a1, hs1, _⟩ := logRun_cons_some a af e rest h2
+  rw [he, logStep_already_some] at hs1
+  exact (logRun_done_iff pre a h1 k).mp hs1.2.1
+
+/-- **no work after success.** A `start k` never follows an `ok k`. -/
+theorem logWf_start_not_after_ok (pre rest : List Ev) (e : Ev) (k : LogKey)
+    (h : logWf (pre ++ e :: rest) = true) (he : e.cls = .start k) :
+    ∀ e' ∈ pre, e'.cls ≠ .ok k := by
+  obtain ⟨a, af, h1, h2, _⟩ := logWf_split pre (e :: rest) h
+  obtain ⟨a1, hs1, _⟩ := logRun_cons_some a af e rest h2
+  rw [he, logStep_start_some] at hs1
+  intro e' hm hc
+  exact hs1.2.1 ((logRun_done_iff pre a h1 k).mpr ⟨e', hm, hc⟩)
+
+/-- **analyse at most once.** -/
+theorem logWf_analyse_once (pre rest : List Ev) (e : Ev) (s : RemoteSrc) (f : FinderId)
+    (h : logWf (pre ++ e :: rest) = true) (he : e.cls = .analyse s f) :
+    ∀ e' ∈ pre, e'.cls ≠ .analyse s f := by
+  obtain ⟨a, af, h1, h2, _⟩ := logWf_split pre (e :: rest) h
+  obtain ⟨a1, hs1, _⟩ := logRun_cons_some a af e rest h2
+  rw [he, logStep_analyse_some] at hs1
+  intro e' hm hc
+  rw [logRun_eq_logScan] at h1
+  have c := (logScan_counts _ a h1).analyse s f
+  rw [cnt_reverse] at c
+  have : 0 < cnt (.analyse s f) pre := (cnt_pos_iff _ _).mpr ⟨e', hm, hc⟩
+  rw [c] at this
+  simp [hs1.2.1] at this
+
+/-! ## `Ev` ↔ role -/
+
+/-- the role determines the event (except for trace notes) -/
+theorem Ev.cls_inj (e e' : Ev) (h : e.cls = e'.cls) (hn : e.cls ≠ .note) : e = e' := by
+  cases e <;> cases e' <;> simp [Ev.cls] at h hn ⊢ <;> exact h
+
+theorem count_eq_cnt (e : Ev) (l : List Ev) (hn : e.cls ≠ .note) : l.count e = cnt e.cls l := by
+  unfold cnt List.count
+  apply List.countP_congr
+  intro x _
+  simp only [beq_iff_eq, decide_eq_true_eq]
+  exact ⟨fun h => by rw [h], fun h => Ev.cls_inj x e h (by rw [h]; exact hn)⟩
+
+/-! ## diagnostics -/
+
+/-- the diagnostic for a relative dependency that leaves its package -/
+def escapeDiag (base : RemoteSrc) : Diag :=
+  { isError := true, kind := 2, summary := [], file := [], rewritten := false, pkg := base.pkg }
+
+/-- one per relative dependency of `decls` that escapes `base`, in order -/
+def escapeDiags (base : RemoteSrc) (decls : List Decl) : List Diag :=
+  decls.filterMap fun d =>
+    match d with
+    | .loc rel _ =>
+      match joinSubPath base.sub rel with
+      | some _ => none
+      | none => some (escapeDiag base)
+    | _ => none
+
+theorem applyDecls_diags (base : RemoteSrc) (decls : List Decl) (st : BState) (ds : List Diag) :
+    (applyDecls base decls st ds).2 = ds ++ escapeDiags base decls := by
+  induction decls generalizing st ds with
+  | nil => simp [applyDecls, escapeDiags]
+  | cons d r ih =>
+    cases d with
+    | remote src f => simp only [applyDecls, ih]; simp [escapeDiags]
+    | registry src allowed f => simp only [applyDecls, ih]; simp [escapeDiags]
+    | loc rel f =>
+      simp only [applyDecls]
+      cases hj : joinSubPath base.sub rel with
+      | some sub => simp only [ih]; simp [escapeDiags, hj]
+      | none => simp only [ih]; simp [escapeDiags, hj, escapeDiag]
+    | diag e s f => simp only [applyDecls, ih]; simp [escapeDiags]
+
+/-- the wrapped form of one finder diagnostic -/
+def finderDiagOf (pkg : PkgAddr) (isErr : Bool) (summary file : Str) : Diag :=
+  match normalizeSubpath file with
+  | some n => { isError := isErr, kind := 3, summary := summary, file := n, rewritten := true, pkg := pkg }
+  | none => { isError := isErr, kind := 3, summary := summary, file := file, rewritten := false, pkg := pkg }
+
+theorem finderDiags_eq (pkg : PkgAddr) (decls : List Decl) :
+    finderDiags pkg decls = decls.filterMap fun d =>
+      match d with
+      | .diag e s f => some (finderDiagOf pkg e s f)
+      | _ => none := by
+  unfold finderDiags
+  congr 1
+  funext d
+  cases d with
+  | diag e s f => simp only [finderDiagOf]; cases normalizeSubpath f <;> rfl
+  | _ => rfl
+
+/-- the loop never drops a diagnostic: the result extends what was passed in -/
+theorem drain_diags_prefix (w : World) (fuel : Nat) (ph : Bool) (st : BState) (ds : List Diag)
+    (st' : BState) (ds' : List Diag) (hd : drain w fuel ph st ds = .done st' ds') :
+    ∃ extra, ds' = ds ++ extra := by
+  induction fuel generalizing ph st ds with
+  | zero => simp [drain] at hd
+  | succ fuel ih =>
+    cases ph with
+    | false =>
+      simp only [drain] at hd
+      split at hd
+      · exact ih _ _ _ hd
+      · split at hd
+        · obtain ⟨x, hx⟩ := ih _ _ _ hd
+          exact ⟨_, by rw [hx, List.append_assoc]⟩
+        · exact ih _ _ _ hd
+    | true =>
+      simp only [drain] at hd
+      split at hd
+      · split at hd
+        · cases hd; exact ⟨[], by simp⟩
+        · exact ih _ _ _ hd
+      · split at hd
+        · obtain ⟨x, hx⟩ := ih _ _ _ hd
+          exact ⟨_, by rw [hx, List.append_assoc]⟩
+        · split at hd
+          · exact ih _ _ _ hd
+          · obtain ⟨x, hx⟩ := ih _ _ _ hd
+            rw [applyDecls_diags] at hx
+            exact ⟨_, by rw [hx, List.append_assoc, List.append_assoc]⟩
+
+theorem hasErrors_append (a b : List Diag) : hasErrors (a ++ b) = (hasErrors a || hasErrors b) := by
+  simp [hasErrors]
+
+/-! ## cache coherence -/
+
+/-- cache coherence: what the builder remembers is what the world answers -/
+def CacheOK (w : World) (st : BState) : Prop :=
+  (∀ r vs, assoc st.regVersions r = some vs → assoc w.versions r = some (some vs)) ∧
+  (∀ k real, assoc st.resolved k = some real → assoc w.sources k = some (some real))
+
+theorem cacheOK_init (w : World) : CacheOK w BState.init :=
+  ⟨fun _ _ h => by simp [BState.init, assoc_nil] at h, fun _ _ h => by simp [BState.init, assoc_nil] at h⟩
+
+/-- `CacheOK` survives every elementary transition of the builder -/
+theorem cacheOK_stepInv (w : World) : StepInv w (CacheOK w) where
+  memo := by
+    intro st st' hm h
+    unfold CacheOK
+    rw [hm.regVersions, hm.resolved]
+    exact h
+  versions := by
+    intro st pkg h
+    unfold frsVersions
+    split
+    · exact h
+    · split
+      · next vs hw =>
+        refine ⟨?_, h.2⟩
+        intro r vs' hr
+        simp only [assoc_cons] at hr
+        split at hr
+        · next e => cases hr; rw [← e]; exact hw
+        · exact h.1 r vs' hr
+      · exact h
+  source := by
+    intro st pkg vs sel h
+    unfold frsSource
+    split
+    · exact h
+    · split
+      · next real hw =>
+        refine ⟨h.1, ?_⟩
+        intro k real' hr
+        simp only [assoc_cons] at hr
+        split at hr
+        · next e => cases hr; rw [← e]; exact hw
+        · exact h.2 k real' hr
+      · exact h
+  ensure := by
+    intro st pkg h
+    unfold ensurePackage
+    split
+    · exact h
+    · split
+      · exact h
+      · exact h
+  analyse := fun _ _ _ h _ => h
+  trace := fun _ _ h => h
+
+/-- the two stages under cache coherence -/
+theorem frsVersions_some (w : World) (st st1 : BState) (pkg : RegPkg) (vs : List VerInfo)
+    (hc : CacheOK w st) (h : frsVersions w st pkg = (st1, some vs)) :
+    assoc w.versions pkg = some (some vs) ∧ st1.resolved = st.resolved := by
+  unfold frsVersions at h
+  split at h
+  · next vs' hv => cases h; exact ⟨hc.1 _ _ hv, rfl⟩
+  · split at h
+    · next vs' hw => cases h; exact ⟨hw, rfl⟩
+    · cases h
+
+theorem frsSource_some (w : World) (st1 st2 : BState) (pkg : RegPkg) (vs : List VerInfo)
+    (sel : VerInfo) (real : RemoteSrc)
+    (hc : CacheOK w st1) (h : frsSource w st1 pkg vs sel = (st2, some real)) :
+    assoc w.sources (pkg, sel.ver) = some (some real) := by
+  unfold frsSource at h
+  split at h
+  · next real' hv => cases h; exact hc.2 _ _ hv
+  · split at h
+    · next real' hw => cases h; exact hw
+    · cases h
+
+/-! ## consequences of `LogOK` -/
+
+/-- counts for one key, in a state satisfying the invariant: as many `start` as `call`; every
+`call` ended by `ok` or `fail`; at most one `ok`, and one exactly when the key is in its memo
+table -/
+theorem LogOK.key_counts {st : BState} (h : LogOK st) (k : LogKey) :
+    cnt (.start k) st.log = cnt (.call k) st.log ∧
+    cnt (.call k) st.log = cnt (.ok k) st.log + cnt (.fail k) st.log ∧
+    cnt (.ok k) st.log ≤ 1 ∧
+    (0 < cnt (.ok k) st.log ↔ inTables st k) ∧
+    (0 < cnt (.already k) st.log → inTables st k) := by
+  obtain ⟨a, h1, h2, h3, _⟩ := h
+  have c := logScan_counts _ a h1
+  have cs := c.start k
+  have cc := c.call k
+  have co := c.ok k
+  rw [h2] at cs cc
+  simp only [reduceCtorEq, if_false, Nat.add_zero] at cs cc
+  refine ⟨cs, cc, ?_, ?_, fun hp => (h3 k).mp (c.already k hp)⟩
+  · rw [co]; split <;> omega
+  · rw [co]
+    by_cases hk : k ∈ a.done
+    · simp [hk, (h3 k).mp hk]
+    · simp only [hk, if_false, Nat.lt_irrefl, false_iff]
+      exact fun h => hk ((h3 k).mpr h)
+
+theorem LogOK.analyse_count {st : BState} (h : LogOK st) (s : RemoteSrc) (f : FinderId) :
+    st.log.count (.analyse s f) = if (s, f) ∈ st.analyzed then 1 else 0 := by
+  obtain ⟨a, h1, _, _, h4⟩ := h
+  rw [count_eq_cnt _ _ (by simp [Ev.cls]), ← h4]
+  exact (logScan_counts _ a h1).analyse s f
+
+theorem Ev.cls_eq_iff (e e' : Ev) (hn : e'.cls ≠ .note) : e.cls = e'.cls ↔ e = e' :=
+  ⟨fun h => Ev.cls_inj e e' h (by rw [h]; exact hn), fun h => by rw [h]⟩
+
+/-! ## `runOps`, results -/
+
+theorem runOps_append (w : World) (fuel : Nat) (st : BState) (a b : List Op) :
+    runOps w fuel st (a ++ b) =
+      ((runOps w fuel (runOps w fuel st a).1 b).1,
+       (runOps w fuel st a).2 ++ (runOps w fuel (runOps w fuel st a).1 b).2) := by
+  induction a generalizing st with
+  | nil => simp [runOps]
+  | cons op r ih => simp only [List.cons_append, runOps, ih, List.cons_append]
+
+/-- what the caller sees of a result -/
+def OpResult.diagsOf : OpResult → Option (List Diag)
+  | .diags ds => some ds
+  | _ => none
+
+def OpResult.isRefused : OpResult → Bool
+  | .refused => true
+  | _ => false
+
+/-! ## a small concrete world for the non-vacuity examples -/
+
+def exPkgA : PkgAddr := "A".toList
+def exPkgB : PkgAddr := "B".toList
+def exReg : RegPkg := "R".toList
+
+/-- two remote packages `A`, `B`; one registry package `R` listed in shuffled order (one entry
+deprecated).  The root of `A` needs `B//sub`, the registry module `R` (1.0.0 or 1.1.0) and a local
+child, and its finder emits a warning; `B//sub` needs the root of `A` again (a cycle);
+`R` 1.1.0 lives in `B//modules/x`, which needs `B//other`; `B//deep` has a dependency that escapes
+the package. -/
+def exWorld : World where
+  fetch := [(exPkgA, some ("cA".toList, none)),
+            (exPkgB, some ("cB".toList, some ("b".toList, "1".toList)))]
+  versions := [(exReg, some [⟨"1.1.0".toList, 1, some ("old".toList, "http://x".toList)⟩,
+                             ⟨"2.0.0".toList, 2, none⟩, ⟨"1.0.0".toList, 0, none⟩])]
+  sources := [((exReg, "1.1.0".toList), some ⟨exPkgB, "modules/x".toList⟩),
+              ((exReg, "2.0.0".toList), some ⟨exPkgB, []⟩)]
+  deps := [(("cA".toList, [], 0),
+             [.remote ⟨exPkgB, "sub".toList⟩ 0,
+              .registry ⟨exReg, []⟩ ["1.0.0".toList, "1.1.0".toList] 0,
+              .loc "./child".toList 0,
+              .diag false "careful".toList "main.tf".toList]),
+           (("cB".toList, "sub".toList, 0), [.remote ⟨exPkgA, []⟩ 0]),
+           (("cB".toList, "modules/x".toList, 0), [.loc "../../other".toList 0]),
+           (("cB".toList, "deep".toList, 0), [.loc "../..".toList 0])]
+
+/-- a successful add, then a registry request no offered version satisfies, then one more add -/
+def exOps : List Op :=
+  [.addRemote ⟨exPkgA, []⟩ 0,
+   .addRegistry ⟨exReg, []⟩ ["3.0.0".toList] 0,
+   .addRemote ⟨exPkgB, []⟩ 0]
+
 end Slug
